@@ -253,10 +253,10 @@ def run(ctx):
             h = sum((j + 1) * K.index(x) for j, x in enumerate(kinds))
             for fi, f in enumerate(FIELDS):
                 for si, sh in enumerate(shapes):
-                    # k=1: full product. k=2 quick: each tuple meets 6 of the 18 (field, shape) pairs, chosen so
+                    # k=1: full product. k=2 quick: each tuple meets 12 of the 18 (field, shape) pairs, chosen so
                     # that over the tuples every pair is met; k=2 thorough: full product. k=3: 3 of 18 pairs.
-                    if k == 2 and q and (fi + si) % 3 != h % 3:
-                        continue
+                    if k == 2 and q and (fi + si) % 3 == h % 3:
+                        continue    # quick: 12 of the 18 (field, shape) pairs per 2-tuple
                     if k == 3 and (fi * 3 + si) % 6 != h % 6:
                         continue
                     add(kinds, f=f, outputs=sh, hashtypes=(k == 1 or (not q and k == 2 and si == 1)))
